@@ -16,8 +16,10 @@ Per case (a JSON spec of a scenario x planning-problem set, built through the pu
 """
 from __future__ import annotations
 
+import contextlib
 import copy
 import glob
+import io as io_mod
 import json
 import logging
 import os
@@ -26,9 +28,10 @@ import traceback
 
 import c02_gen as G
 import c02_snapshot as S
-from common import CORPUS_DIR, err_class
+from common import CORPUS_DIR, InfraError, err_class
 
-RULE = ("a case is one scenario x planning-problem set spec (<= 4 lanelets, <= 3 signs, <= 2 lights, <= 2 intersections, "
+RULE = ("DIMENSIONS (harness/c02_dims.py, 626 entries over 52 classes, checked against the real signatures every run) decides for every constructor parameter / setter / public operation how it is varied. "
+        "A case is one scenario x planning-problem set spec (<= 4 lanelets, <= 3 signs, <= 2 lights, <= 2 intersections, "
         "<= 8 obstacles of the four roles, <= 3 planning problems) built through the public constructors with every optional "
         "constructor argument independently given / left at its default, enum members drawn from (Python enum ∩ .proto enum), "
         "reals from dyadic / uniform / subnormal / huge / -0.0 / Python-int pools; non-trivial = the case holds at least one "
@@ -46,6 +49,13 @@ ASSUMPTIONS = [
     "a signal-state object without any slot (SignalState()) carries no information: as initial_signal_state it reads back as None, "
     "inside a signal series as the None the reader appends (shown as the all-unset signal state)",
     "a state's populated attributes form a map; snapshots list it in protobuf descriptor order (St.wf): the order is not content",
+    "time steps are Python `int` (numpy integers are refused by Trajectory's own assertion and by the writer's isinstance(.., int)); "
+    "reals may be float, int or numpy.float64; lanelet ids may be numpy.int64",
+    "read route open(lanelet_assignment=True) is compared only when every obstacle state is exact with position and orientation; if "
+    "the assignment geometry (C07's machinery) still raises, the case is counted as excluded",
+    "the header a writer object writes (author, affiliation, source, tags, location) is the one captured when the writer was "
+    "constructed: histories edit the scenario's objects, not its header attributes (that a writer's output depends on its own "
+    "inputs only is C15)",
     "not content (no field in the format / derived): lanelet centre line, obstacle-lanelet assignments, TrafficLight.color/.shape, "
     "TrafficLightCycle.active, dynamic-obstacle meta information/history, the file's date stamp; Location None == Location() "
     "(the writer's documented substitute); an empty reference set == no reference set; state CLASS (only the populated attributes)",
@@ -61,7 +71,14 @@ REQUIRED_BUCKETS = ["sign:virtual-true", "sign:first-occurrence", "light:offset"
                     "canonical-original", "signal:empty-object", "outside:initial-extra-attribute",
                     "history:write_scenario_to_file-after-write_to_file", "history:write_scenario_to_file-after-nothing",
                     "history:write_scenario_to_file-after-write_scenario_to_file", "history:write_to_file-after-write_to_file",
-                    "history:write_to_file-after-write_scenario_to_file"]
+                    "history:write_to_file-after-write_scenario_to_file", "history:after-a-call-that-raised",
+                    "history:scenario-edited-between-calls", "dimension-table-checked",
+                    "variant:np", "variant:setters", "variant:inplace", "variant:reid", "variant:update_ops", "variant:extras",
+                    "variant:shuffle", "variant:entry-list", "variant:entry-network", "variant:entry-network-list",
+                    "variant:sign-refs-by-add", "variant:pps-by-add", "io:queries-before-write", "io:xml_first", "io:prefill",
+                    "io:validity", "io:precision", "io:writer-direct", "read-route:Path", "read-route:bytes",
+                    "read-route:explicit-format", "read-route:direct", "read-route:reopen", "read-route:lanelet-assignment",
+                    "read-route:lanelet-network"]
 WORKERS = {"quick": 1, "thorough": 8}
 
 logging.disable(logging.CRITICAL)
@@ -154,16 +171,120 @@ def _site(e):
     return site or "unknown"
 
 
-def write_read(ctx, sc, pps, wkw, tag="c"):
-    """Returns dict(write=('ok', bytes)|('err', cls, site, msg), read=('ok', sc, pps)|('err', ...)|None)."""
+IO_KEYS = {
+    "queries": "read-only queries on the scenario / planning problems BEFORE writing (caches filled, lazy attributes materialised)",
+    "xml_first": "the same objects are first written by the XML writer (another writer class, process-global decimal precision)",
+    "precision": "decimal_precision given to the writer (the protobuf format stores doubles: it must not matter)",
+    "writer": "facade | direct: CommonRoadFileWriter(file_format=PROTOBUF) or ProtobufFileWriter itself",
+    "prefill": "the target path already holds a LARGER file (OverwriteExistingFile.ALWAYS must replace, not patch, it)",
+    "validity": "check_validity_of_commonroad_file(bytes, PROTOBUF) accepts the written file",
+    "reads": "alternative read routes that must all return what the plain read returns: pathlib.Path, bytes + file_format, "
+             "explicit file_format, ProtobufFileReader, one reader opened twice, open(lanelet_assignment=True), open_lanelet_network()",
+}
+READ_ROUTES = ["Path", "bytes", "explicit-format", "direct", "reopen", "lanelet-assignment", "lanelet-network"]
+
+
+def gen_io(r):
+    io = {}
+    if r.random() < 0.3:
+        io["queries"] = True
+    if r.random() < 0.15:
+        io["xml_first"] = True
+    if r.random() < 0.4:
+        io["precision"] = r.choice([0, 1, 2, 4, 8, 12])
+    io["writer"] = r.choice(["facade", "facade", "direct"])
+    if r.random() < 0.2:
+        io["prefill"] = True
+    if r.random() < 0.3:
+        io["validity"] = True
+    io["reads"] = [x for x in READ_ROUTES if r.random() < 0.22]
+    return io
+
+
+def pre_queries(sc, pps):
+    """Read-only public queries; whatever they raise is none of this property's business."""
+    import numpy as np
+
+    def q(f):
+        try:
+            return f()
+        except Exception:  # noqa
+            return None
+
+    ln = sc.lanelet_network
+    origin = np.array([0.0, 0.0])
+    for l in ln.lanelets:
+        for f in (lambda: l.polygon, lambda: l.distance, lambda: l.inner_distance, lambda: l.convert_to_polygon(),
+                  lambda: l.interpolate_position(0.5), lambda: l.contains_points(np.array([origin])),
+                  lambda: l.orientation_by_position(l.center_vertices[0]), lambda: str(l), lambda: l == l):
+            q(f)
+    for f in (lambda: ln.find_lanelet_by_position([origin]), lambda: ln.lanelet_polygons, lambda: ln.map_inc_lanelets_to_intersections,
+              lambda: ln.lanelets_in_proximity(origin, 10.0), lambda: str(ln)):
+        q(f)
+    for t in ln.traffic_lights:
+        q(lambda: t.get_state_at_time_step(3))
+        q(lambda: t.traffic_light_cycle.cycle_init_timesteps)
+        q(lambda: t.traffic_light_cycle.get_state_at_time_step(0))
+    for sg in ln.traffic_signs:
+        q(lambda: str(sg))
+        q(lambda: sg == sg)
+    for x_ in ln.intersections:
+        q(lambda: x_.map_incoming_lanelets)
+    for o in sc.obstacles:
+        t0 = getattr(getattr(o, "initial_state", None), "time_step", 0)
+        t0 = t0 if isinstance(t0, int) else 0
+        for f in (lambda: o.occupancy_at_time(t0), lambda: o.occupancy_at_time(t0 + 1), lambda: o.state_at_time(t0 + 1),
+                  lambda: o.signal_state_at_time_step(t0 + 1), lambda: o.obstacle_shape.shapely_object,
+                  lambda: o.prediction.occupancy_set, lambda: o.prediction.final_time_step,
+                  lambda: o.prediction.occupancy_at_time_step(t0 + 1), lambda: o.initial_state.attributes, lambda: str(o), lambda: o == o):
+            q(f)
+    for f in (lambda: sc.occupancies_at_time_step(0), lambda: sc.obstacle_states_at_time_step(1), lambda: str(sc),
+              lambda: sc.obstacles_by_position_intervals([]), lambda: sc.generate_object_id.__doc__):
+        q(f)
+    for p in pps.planning_problem_dict.values():
+        q(lambda: p.goal.is_reached(p.initial_state))
+        q(lambda: pps.find_planning_problem_by_id(p.planning_problem_id))
+        for g in p.goal.state_list:
+            q(lambda: g.attributes)
+            q(lambda: g.is_uncertain_position)
+
+
+def make_writer(sc, pps, wkw, io):
+    from commonroad.common.file_writer import CommonRoadFileWriter
+    from commonroad.common.util import FileFormat
+    from commonroad.common.writer.file_writer_protobuf import ProtobufFileWriter
+    kw = dict(wkw)
+    if io.get("precision") is not None:
+        kw["decimal_precision"] = io["precision"]
+    if io.get("writer") == "direct":
+        return ProtobufFileWriter(sc, pps, **kw)
+    return CommonRoadFileWriter(sc, pps, file_format=FileFormat.PROTOBUF, **kw)
+
+
+def _new_path(ctx, tag):
+    ctx._c02_n = getattr(ctx, "_c02_n", 0) + 1
+    return os.path.join(ctx.tmpdir(), f"{tag}{ctx._c02_n}.pb")
+
+
+def write_read(ctx, sc, pps, wkw, tag="c", io=None):
+    """Returns dict(write=('ok', bytes)|('err', cls, site, msg), read=('ok', sc, pps)|('err', ...)|None, path)."""
     from commonroad.common.file_reader import CommonRoadFileReader
     from commonroad.common.file_writer import CommonRoadFileWriter, OverwriteExistingFile
     from commonroad.common.util import FileFormat
-    ctx._c02_n = getattr(ctx, "_c02_n", 0) + 1
-    path = os.path.join(ctx.tmpdir(), f"{tag}{ctx._c02_n}.pb")
-    out = {"write": None, "read": None}
+    io = io or {}
+    path = _new_path(ctx, tag)
+    out = {"write": None, "read": None, "path": path}
+    if io.get("xml_first"):
+        try:
+            CommonRoadFileWriter(sc, pps, **wkw).write_to_file(path[:-3] + ".xml", OverwriteExistingFile.ALWAYS)
+        except Exception:  # noqa  (what the XML format cannot hold is C01's business)
+            pass
+    if io.get("prefill"):
+        with open(path, "wb") as f:
+            f.write(b"\x0a\x05stale" * 40000)
     try:
-        CommonRoadFileWriter(sc, pps, file_format=FileFormat.PROTOBUF, **wkw).write_to_file(path, OverwriteExistingFile.ALWAYS)
+        with contextlib.redirect_stdout(io_mod.StringIO()):          # "Replace file ..." of _handle_file_path
+            make_writer(sc, pps, wkw, io).write_to_file(path, OverwriteExistingFile.ALWAYS)
         data = open(path, "rb").read()
         out["write"] = ("ok", data)
     except Exception as e:  # noqa
@@ -174,12 +295,85 @@ def write_read(ctx, sc, pps, wkw, tag="c"):
         out["read"] = ("ok", sc2, pps2)
     except Exception as e:  # noqa
         out["read"] = ("err", err_class(e), _site(e), f"{type(e).__name__}: {str(e)[:160]}")
-    finally:
-        try:
-            os.unlink(path)
-        except OSError:
-            pass
     return out
+
+
+def assignable(a):
+    """lanelet assignment (C07's machinery) needs exact positions and orientations everywhere"""
+    def exact(st):
+        return st["pos"] is not None and "point" in st["pos"] and any(k == "orientation" and "exact" in v for k, v in st["attrs"])
+    for o in a["static"]:
+        if not exact(o["init"]):
+            return False
+    for o in a["dynamic"]:
+        if not exact(o["init"]):
+            return False
+        if o["pred"] and "traj" in o["pred"] and not all(exact(s) for s in o["pred"]["traj"]["states"]):
+            return False
+    return True
+
+
+def network_part(ln):
+    from commonroad.planning.planning_problem import PlanningProblemSet
+    from commonroad.scenario.scenario import Scenario
+    tmp = Scenario(0.1, author="", affiliation="", source="", tags=set())
+    tmp.replace_lanelet_network(ln)
+    s_ = S.snapshot(tmp, PlanningProblemSet())
+    return {k: s_[k] for k in ("lanelets", "signs", "lights", "intersections")}
+
+
+def read_routes(ctx, sp, case, path, data, b, a, routes):
+    """Every alternative public read route must return what the plain `CommonRoadFileReader(path).open()` returned."""
+    import pathlib
+    from commonroad.common.file_reader import CommonRoadFileReader
+    from commonroad.common.reader.file_reader_protobuf import ProtobufFileReader
+    from commonroad.common.util import FileFormat
+    want = S.canon_order(b)
+    for route in routes:
+        whole = True
+        try:
+            if route == "Path":
+                got = CommonRoadFileReader(pathlib.Path(path)).open()
+            elif route == "bytes":
+                got = CommonRoadFileReader(data, FileFormat.PROTOBUF).open()
+            elif route == "explicit-format":
+                got = CommonRoadFileReader(path, FileFormat.PROTOBUF).open()
+            elif route == "direct":
+                got = ProtobufFileReader(path).open()
+            elif route == "reopen":
+                rd = CommonRoadFileReader(path)
+                rd.open()
+                rd.open_lanelet_network()
+                got = rd.open()
+            elif route == "lanelet-assignment":
+                if not assignable(a):
+                    continue
+                try:
+                    got = CommonRoadFileReader(path).open(lanelet_assignment=True)
+                except Exception:  # noqa  the assignment geometry (C07) refuses the input: no verdict here
+                    ctx.excluded += 1
+                    ctx.tag("excluded:lanelet-assignment-raises")
+                    continue
+            else:
+                whole = False
+                got = CommonRoadFileReader(path).open_lanelet_network()
+        except Exception as e:  # noqa
+            ctx.fail(f"C02/read-route/{route}/raises-{err_class(e)}/{_site(e)}",
+                     f"read route {route} raises {type(e).__name__}: {str(e)[:120]} where the plain read succeeds", case)
+            continue
+        ctx.tag(f"read-route:{route}")
+        if whole:
+            have, ref = S.canon_order(S.snapshot(got[0], got[1])), want
+        else:
+            have, ref = network_part(got), {k: want[k] for k in ("lanelets", "signs", "lights", "intersections")}
+            have = {k: sorted(v, key=lambda o: o["id"]) for k, v in have.items()}
+        seen = set()
+        for pth, x, y in S.diff(ref, have):
+            k = key_of_path(pth)
+            if k not in seen:
+                seen.add(k)
+                ctx.fail(f"C02/read-route/{route}/content/{k}",
+                         f"read route {route} {pth}: plain read {json.dumps(x)[:100]} this route {json.dumps(y)[:100]}", case)
 
 
 def parse_tree(data):
@@ -326,9 +520,21 @@ def run_case(ctx, case, correspond=True):
         ctx.tag("excluded:constructor-refuses")
         return
     ctx.case(sp, nontrivial(sp))
+    io = case.get("io") or {}
+    for k_ in io:
+        if k_ not in IO_KEYS:
+            raise InfraError(f"C02: unknown io key {k_}")
+    for k_ in (sp.get("variant") or {}):
+        if k_ not in G.VARIANT_KEYS:
+            raise InfraError(f"C02: unknown variant key {k_}")
+    if io.get("queries"):
+        pre_queries(sc, pps)
+        ctx.tag("io:queries-before-write")
     a = S.snapshot(sc, pps, wkw)
-    res = write_read(ctx, sc, pps, wkw)
+    res = write_read(ctx, sc, pps, wkw, io=io)
     w = res["write"]
+    if kind == "valid":
+        tag_variant(ctx, sp.get("variant") or {}, io)
 
     if kind == "outside":                      # constructible but outside the quantifier: model = implementation, no oracle
         w2 = res["write"]
@@ -361,20 +567,25 @@ def run_case(ctx, case, correspond=True):
 
     tag_spec(ctx, sp)
     if w[0] == "err":
-        ctx.fail(f"C02/write/raises-{w[1]}/{w[2]}", f"writing raises {w[3]}", {"spec": sp})
+        ctx.fail(f"C02/write/raises-{w[1]}/{w[2]}", f"writing raises {w[3]}", {k_: case[k_] for k_ in ("spec", "io") if k_ in case})
         if correspond:
             model = ctx.driver.ask("C02", "encode", {"x": a, "T": tables_for(a)})
             ctx.compare({"spec": sp}, {"err": w[1]}, model if "err" in model else {"ok": "written"},
                         "writer raises vs CR.PBF.encodePb")
         return
-    msg = parse_tree(w[1])
+    try:
+        msg = parse_tree(w[1])
+    except Exception as e:  # noqa  the file the writer produced is not a CommonRoad message at all
+        ctx.fail("C02/write/file-is-not-a-commonroad-message", f"the written file cannot be parsed: {type(e).__name__}: {str(e)[:120]}",
+                 {k_: case[k_] for k_ in ("spec", "io") if k_ in case})
+        return
     tree = msg_tree(msg)
     if correspond:
         model = ctx.driver.ask("C02", "encode", {"x": a, "T": tables_for(a)})
         ctx.compare({"spec": sp}, {"ok": tree}, model, "written message tree vs CR.PBF.encodePb")
     r = res["read"]
     if r[0] == "err":
-        ctx.fail(f"C02/read/raises-{r[1]}/{r[2]}", f"reading the written file raises {r[3]}", {"spec": sp})
+        ctx.fail(f"C02/read/raises-{r[1]}/{r[2]}", f"reading the written file raises {r[3]}", {k_: case[k_] for k_ in ("spec", "io") if k_ in case})
         if correspond:
             model = ctx.driver.ask("C02", "decode", {"m": tree})
             ctx.compare({"spec": sp}, {"err": r[1]}, model if "err" in model else {"ok": "read"}, "reader raises vs CR.PBF.decodePb")
@@ -411,11 +622,26 @@ def run_case(ctx, case, correspond=True):
         if k in seen:
             continue
         seen.add(k)
-        ctx.fail(f"C02/content/{k}", f"{path}: written {json.dumps(x)[:120]} read back {json.dumps(y)[:120]}", {"spec": sp})
+        ctx.fail(f"C02/content/{k}", f"{path}: written {json.dumps(x)[:120]} read back {json.dumps(y)[:120]}",
+                 {k_: case[k_] for k_ in ("spec", "io") if k_ in case})
+    sub = {k_: case[k_] for k_ in ("spec", "io") if k_ in case}
+    if io.get("validity"):
+        from commonroad.common.file_writer import CommonRoadFileWriter
+        from commonroad.common.util import FileFormat
+        ok = CommonRoadFileWriter.check_validity_of_commonroad_file(w[1], FileFormat.PROTOBUF)
+        if ok is not True:
+            ctx.fail("C02/validity/written-file-rejected", f"check_validity_of_commonroad_file says {ok!r} for the file just written", sub)
+    if io.get("reads"):
+        read_routes(ctx, sp, sub, res["path"], w[1], b, a, io["reads"])
     if correspond and ctx.rng.random() < 0.35:
         reader_defaults(ctx, msg, sp)
     if case.get("history"):
-        run_history(ctx, sp, sc, pps, wkw, a, [bool(x) for x in case["history"]], correspond)
+        run_history(ctx, case, sc, pps, wkw, correspond)
+    for f_ in (res["path"], res["path"][:-3] + ".xml"):
+        try:
+            os.unlink(f_)
+        except OSError:
+            pass
 
 
 # ------------------------------------------------------------------------------------------------ one writer object, several files
@@ -423,55 +649,121 @@ def run_case(ctx, case, correspond=True):
 CALL = {True: "write_to_file", False: "write_scenario_to_file"}
 
 
+EDITS = ["add-env-obstacle", "remove-obstacle", "set-dt", "toggle-light", "append-predecessor", "add-planning-problem",
+         "set-signal-series"]
+
+
 def gen_history(r):
-    """2..4 calls on one writer object; True = write_to_file, False = write_scenario_to_file."""
-    return [r.random() < 0.5 for _ in range(r.choice([2, 2, 3, 4]))]
+    """2..4 calls on one writer object.  A step is {"call": True = write_to_file / False = write_scenario_to_file,
+    "pre": None | "fail" (a call that raises comes first) | "edit:<kind>" (the scenario is edited in place first)}."""
+    steps = []
+    for i in range(r.choice([2, 2, 3, 4])):
+        pre = None
+        k = r.random()
+        if i > 0 and k < 0.25:
+            pre = "fail"
+        elif i > 0 and k < 0.6:
+            pre = "edit:" + r.choice(EDITS)
+        steps.append({"call": r.random() < 0.5, "pre": pre})
+    return steps
 
 
-def run_history(ctx, sp, sc, pps, wkw, a, hist, correspond=True):
-    """ONE CommonRoadFileWriter used for several files.  Every file, read back, has to yield the content handed to the
-    writer (scenario-only file: the scenario, no planning problem) whatever the writer wrote before; correspondence: the
-    message tree of every file vs the model's writer object (CR.PBF.Wr.run)."""
+def apply_edit(kind, sc, pps, n):
+    """An in-place edit of the scenario / planning-problem set the writer object holds a reference to."""
+    import numpy as np
+    from commonroad.geometry.shape import Circle
+    from commonroad.planning.goal import GoalRegion
+    from commonroad.planning.planning_problem import PlanningProblem
+    from commonroad.common.util import Interval
+    from commonroad.scenario.obstacle import EnvironmentObstacle, ObstacleType
+    from commonroad.scenario.state import CustomState, InitialState, SignalState
+    if kind == "add-env-obstacle":
+        sc.add_objects(EnvironmentObstacle(5 * 10 ** 6 + n, ObstacleType.BUILDING, Circle(1.5 + n, np.array([0.25 * n, -3.0]))))
+    elif kind == "remove-obstacle":
+        obs = sc.obstacles
+        if obs:
+            sc.remove_obstacle(obs[-1])
+    elif kind == "set-dt":
+        sc.dt = 0.05 * (n + 1)
+    elif kind == "toggle-light":
+        for t in sc.lanelet_network.traffic_lights:
+            t.active = not t.active
+            t.traffic_light_cycle.time_offset = (t.traffic_light_cycle.time_offset or 0) + n + 1
+    elif kind == "append-predecessor":
+        for l in sc.lanelet_network.lanelets[:1]:
+            l.predecessor.append(6 * 10 ** 6 + n)
+    elif kind == "add-planning-problem":
+        init = InitialState(time_step=0, position=np.array([1.0, 2.0 + n]), orientation=0.0, velocity=1.0, yaw_rate=0.0, slip_angle=0.0)
+        pps.add_planning_problem(PlanningProblem(7 * 10 ** 6 + n, init, GoalRegion([CustomState(time_step=Interval(1, 9 + n))])))
+    elif kind == "set-signal-series":
+        for o in sc.dynamic_obstacles + sc.static_obstacles:
+            o.signal_series = [SignalState(time_step=n, horn=bool(n % 2), braking_lights=True)]
+
+
+def run_history(ctx, case, sc, pps, wkw, correspond=True):
+    """ONE writer object used for several files; the scenario it refers to may be edited, and a call may raise, in between.
+    Every file, read back, has to yield the content the scenario has AT THAT CALL (scenario-only file: no planning problem)
+    whatever the writer did before; correspondence: every file's message tree vs the model's writer object (CR.PBF.Wr)."""
+    import numpy as np
     from commonroad.common.file_reader import CommonRoadFileReader
-    from commonroad.common.file_writer import CommonRoadFileWriter, OverwriteExistingFile
-    from commonroad.common.util import FileFormat
+    from commonroad.common.file_writer import OverwriteExistingFile
+    from commonroad.geometry.shape import Circle
+    from commonroad.scenario.obstacle import EnvironmentObstacle, ObstacleType
+    sp, io = case["spec"], case.get("io") or {}
+    steps = [st if isinstance(st, dict) else {"call": bool(st), "pre": None} for st in case["history"]]
     try:
-        writer = CommonRoadFileWriter(sc, pps, file_format=FileFormat.PROTOBUF, **wkw)
+        writer = make_writer(sc, pps, wkw, io)
     except Exception:  # noqa  (already reported by the single-write run)
         return
-    model = ctx.driver.ask("C02", "history", {"x": a, "T": tables_for(a), "ops": hist}) if correspond else None
+    calls, results = [], []          # what the model is asked / what the real writer did
     prev = "nothing"
-    for i, full in enumerate(hist):
+    for i, st in enumerate(steps):
+        sub = dict(case, history=steps[:i + 1])
+        if st.get("pre") == "fail":
+            bad = EnvironmentObstacle(2 ** 32 + 7 + i, ObstacleType.PILLAR, Circle(1.0, np.array([0.0, 0.0])))
+            sc.add_objects(bad)
+            calls.append({"x": S.snapshot(sc, pps, wkw), "pps": True})
+            try:
+                writer.write_to_file(_new_path(ctx, "f"), OverwriteExistingFile.ALWAYS)
+                results.append({"ok": "written"})
+            except Exception as e:  # noqa
+                results.append({"err": err_class(e)})
+            sc.remove_obstacle(bad)
+            ctx.tag("history:after-a-call-that-raised")
+            prev = "failed-call"
+        elif st.get("pre"):
+            apply_edit(st["pre"].split(":", 1)[1], sc, pps, i)
+            ctx.tag("history:scenario-edited-between-calls")
+        full = bool(st["call"])
         call = CALL[full]
         where = f"{call}-after-{prev}"
         ctx.tag(f"history:{where}")
-        sub = {"spec": sp, "history": hist[:i + 1]}
-        ctx._c02_n = getattr(ctx, "_c02_n", 0) + 1
-        path = os.path.join(ctx.tmpdir(), f"h{ctx._c02_n}.pb")
+        a_i = S.snapshot(sc, pps, wkw)
+        calls.append({"x": a_i, "pps": full})
+        path = _new_path(ctx, "h")
         try:
             getattr(writer, call)(path, OverwriteExistingFile.ALWAYS)
             data = open(path, "rb").read()
         except Exception as e:  # noqa
             ctx.fail(f"C02/reused-writer/{where}/write/raises-{err_class(e)}/{_site(e)}",
-                     f"call {i + 1} ({call}) on a writer that wrote before raises {type(e).__name__}: {str(e)[:120]}", sub)
-            if correspond:
-                ctx.compare(sub, {"err": err_class(e)}, model[i], "reused writer raises vs CR.PBF.Wr.run")
-            return
-        if correspond:
-            ctx.compare(sub, {"ok": msg_tree(parse_tree(data))}, model[i], f"file {i + 1} of one writer object ({where}) vs CR.PBF.Wr.run")
-        want = a if full else dict(a, pps=[])
+                     f"call {i + 1} ({call}) on a writer that was used before raises {type(e).__name__}: {str(e)[:120]}", sub)
+            results.append({"err": err_class(e)})
+            break
+        try:
+            results.append({"ok": msg_tree(parse_tree(data))})
+        except Exception as e:  # noqa
+            ctx.fail(f"C02/reused-writer/{where}/file-is-not-a-commonroad-message",
+                     f"file {i + 1} of one writer object cannot be parsed: {type(e).__name__}: {str(e)[:120]}", sub)
+            results.append({"err": "unparseable"})
+            break
+        want = a_i if full else dict(a_i, pps=[])
+        prev = call
         try:
             sc2, pps2 = CommonRoadFileReader(path).open()
         except Exception as e:  # noqa
             ctx.fail(f"C02/reused-writer/{where}/read/raises-{err_class(e)}/{_site(e)}",
                      f"file {i + 1} of one writer object ({where}) cannot be read back: {type(e).__name__}: {str(e)[:120]}", sub)
-            prev = call
             continue
-        finally:
-            try:
-                os.unlink(path)
-            except OSError:
-                pass
         b = S.snapshot(sc2, pps2)
         seen = set()
         for pth, x, y in S.diff(S.expected(want), S.canon_order(S.strip_cls(b))):
@@ -479,9 +771,13 @@ def run_history(ctx, sp, sc, pps, wkw, a, hist, correspond=True):
             if k not in seen:
                 seen.add(k)
                 ctx.fail(f"C02/reused-writer/{where}/content/{k}",
-                         f"file {i + 1} of one writer object ({where}) {pth}: handed to the writer {json.dumps(x)[:100]} read back "
+                         f"file {i + 1} of one writer object ({where}) {pth}: held by the scenario {json.dumps(x)[:100]} read back "
                          f"{json.dumps(y)[:100]}", sub)
-        prev = call
+    if correspond and calls:
+        T = dict(pb_tables()) if any(c["x"]["signs"] for c in calls) else tables_for(calls[0]["x"])
+        model = ctx.driver.ask("C02", "history", {"calls": calls[:len(results)], "T": T})
+        model = [m if "err" in m or not isinstance(r_.get("ok"), str) else {"ok": "written"} for m, r_ in zip(model, results)]
+        ctx.compare(dict(case, history=steps), results, model, "files of one writer object vs CR.PBF.Wr.runChecked")
 
 
 # ------------------------------------------------------------------------------------------------ reader-only correspondence
@@ -623,16 +919,171 @@ def check_tables(ctx):
 
 # ------------------------------------------------------------------------------------------------ driver
 
+FORMAT_FIELDS_IGNORED = {("ScenarioInformation", "date"): "time of writing, not content"}
+UNUSED_MESSAGES = {"IntegerList", "FloatList"}          # declared in util.proto, used by neither writer nor reader
+
+
+def dimension_classes():
+    import commonroad.scenario.state as st
+    from commonroad.common.common_lanelet import StopLine
+    from commonroad.common.file_reader import CommonRoadFileReader
+    from commonroad.common.file_writer import CommonRoadFileWriter
+    from commonroad.common.reader.file_reader_protobuf import ProtobufFileReader
+    from commonroad.common.util import AngleInterval, Interval, Time
+    from commonroad.common.writer.file_writer_protobuf import ProtobufFileWriter
+    from commonroad.geometry.shape import Circle, Polygon, Rectangle, ShapeGroup
+    from commonroad.planning.goal import GoalRegion
+    from commonroad.planning.planning_problem import PlanningProblem, PlanningProblemSet
+    from commonroad.prediction.prediction import Occupancy, SetBasedPrediction, TrajectoryPrediction
+    from commonroad.scenario.intersection import Intersection, IntersectionIncomingElement
+    from commonroad.scenario.lanelet import Lanelet, LaneletNetwork
+    from commonroad.scenario.obstacle import DynamicObstacle, EnvironmentObstacle, PhantomObstacle, StaticObstacle
+    from commonroad.scenario.scenario import Environment, GeoTransformation, Location, Scenario, ScenarioID
+    from commonroad.scenario.traffic_light import TrafficLight, TrafficLightCycle, TrafficLightCycleElement
+    from commonroad.scenario.traffic_sign import TrafficSign, TrafficSignElement
+    from commonroad.scenario.trajectory import Trajectory
+    cl = [Scenario, ScenarioID, Location, GeoTransformation, Environment, Time, Interval, AngleInterval, Lanelet, LaneletNetwork,
+          StopLine, TrafficSign, TrafficSignElement, TrafficLight, TrafficLightCycle, TrafficLightCycleElement, Intersection,
+          IntersectionIncomingElement, StaticObstacle, DynamicObstacle, EnvironmentObstacle, PhantomObstacle, st.SignalState,
+          st.CustomState, st.State, Rectangle, Circle, Polygon, ShapeGroup, Occupancy, SetBasedPrediction, TrajectoryPrediction,
+          Trajectory, PlanningProblem, PlanningProblemSet, GoalRegion, CommonRoadFileWriter, CommonRoadFileReader, ProtobufFileWriter,
+          ProtobufFileReader] + list(st.SpecificStateClasses)
+    return cl
+
+
+def check_dimensions(ctx):
+    """The dimension table (c02_dims.DIMENSIONS) against the code under test: a constructor parameter, settable attribute or
+    public operation the table does not know is a dimension the generator cannot have decided about => exit 2."""
+    import inspect
+    from c02_dims import DIMENSIONS
+    unknown, n = [], 0
+    seen = set()
+    for c in dimension_classes():
+        name = c.__name__
+        if name in seen:
+            continue
+        seen.add(name)
+        if name not in DIMENSIONS:
+            unknown.append(f"class {name}")
+            continue
+        t = DIMENSIONS[name]
+        try:
+            params = [p for p in inspect.signature(c.__init__).parameters if p != "self"]
+        except (TypeError, ValueError):
+            params = []
+        sets = [m for m, v in inspect.getmembers(c) if isinstance(v, property) and v.fset is not None and not m.startswith("_")]
+        ops = [m for m, v in inspect.getmembers(c, predicate=lambda f: inspect.isfunction(f) or inspect.ismethod(f))
+               if not m.startswith("_")]
+        for kind, names in (("ctor", params), ("set", sets), ("ops", ops)):
+            for m in names:
+                n += 1
+                if m not in t[kind]:
+                    unknown.append(f"{name}.{kind}.{m}")
+    # the format side: every field of every message of the shipped .proto files is produced by the snapshot / model
+    from commonroad.scenario_definition.protobuf_format.generated_scripts import commonroad_pb2
+    import commonroad.scenario.state as st
+    model = ctx.driver.ask("C02", "tables", {})
+    if list(st.SignalState.__slots__) != S.SIGNAL_SLOTS + ["time_step"]:
+        unknown.append(f"SignalState.__slots__ = {st.SignalState.__slots__}")
+    msgs, todo = {}, [commonroad_pb2.CommonRoad.DESCRIPTOR]
+    while todo:
+        d = todo.pop()
+        if d.name in msgs:
+            continue
+        msgs[d.name] = [f.name for f in d.fields]
+        todo += [f.message_type for f in d.fields if f.message_type is not None]
+    want = FORMAT_FIELDS
+    for m, fs in msgs.items():
+        n += len(fs)
+        for f in fs:
+            if f not in want.get(m, ()) and (m, f) not in FORMAT_FIELDS_IGNORED and not (m == "State" and f in model["state_fields"]):
+                unknown.append(f"proto field {m}.{f}")
+    if unknown:
+        raise InfraError("C02 dimension table does not know: " + ", ".join(unknown[:25])
+                         + " — decide how the generator varies it (harness/c02_dims.py / FORMAT_FIELDS in harness/c02.py)")
+    ctx.tag("dimension-table-checked")
+    return n
+
+
+# message -> fields the writer fills and the reader reads; each is produced by c02_snapshot / CRModel.CRProto (enc… / dec…)
+FORMAT_FIELDS = {
+    "CommonRoad": ["information", "scenario_tags", "location", "lanelets", "traffic_signs", "traffic_lights", "intersections",
+                   "static_obstacles", "dynamic_obstacles", "environment_obstacles", "phantom_obstacles", "planning_problems"],
+    "ScenarioInformation": ["common_road_version", "benchmark_id", "author", "affiliation", "source", "time_step_size"],
+    "TimeStamp": ["year", "month", "day", "hour", "minute"], "ScenarioTags": ["tags"],
+    "Location": ["geo_name_id", "gps_latitude", "gps_longitude", "geo_transformation", "environment"],
+    "GeoTransformation": ["geo_reference", "x_translation", "y_translation", "z_rotation", "scaling"],
+    "Environment": ["time", "time_of_day", "weather", "underground"],
+    "Lanelet": ["lanelet_id", "left_bound", "right_bound", "predecessors", "successors", "adjacent_left", "adjacent_right",
+                "adjacent_left_dir", "adjacent_right_dir", "stop_line", "lanelet_types", "user_one_way", "user_bidirectional",
+                "traffic_sign_refs", "traffic_light_refs"],
+    "Bound": ["points", "line_marking"], "Point": ["x", "y"],
+    "StopLine": ["points", "line_marking", "traffic_sign_refs", "traffic_light_refs"],
+    "TrafficSign": ["traffic_sign_id", "traffic_sign_elements", "first_occurrences", "position", "virtual"],
+    "TrafficSignElement": ["germany_element_id", "zamunda_element_id", "usa_element_id", "china_element_id", "spain_element_id",
+                           "russia_element_id", "argentina_element_id", "belgium_element_id", "france_element_id",
+                           "greece_element_id", "croatia_element_id", "italy_element_id", "puerto_rico_element_id",
+                           "additional_values"],
+    "TrafficLight": ["traffic_light_id", "cycle_elements", "position", "time_offset", "direction", "active"],
+    "CycleElement": ["duration", "color"],
+    "Intersection": ["intersection_id", "incomings", "crossing_lanelets"],
+    "Incoming": ["incoming_id", "incoming_lanelets", "successors_right", "successors_straight", "successors_left", "is_left_of"],
+    "StaticObstacle": ["static_obstacle_id", "obstacle_type", "shape", "initial_state", "initial_signal_state", "signal_series"],
+    "DynamicObstacle": ["dynamic_obstacle_id", "obstacle_type", "shape", "initial_state", "trajectory_prediction",
+                        "set_based_prediction", "initial_signal_state", "signal_series"],
+    "EnvironmentObstacle": ["environment_obstacle_id", "obstacle_type", "obstacle_shape"],
+    "PhantomObstacle": ["obstacle_id", "prediction"],
+    "Shape": ["rectangle", "circle", "polygon", "shape_group"], "Rectangle": ["length", "width", "center", "orientation"],
+    "Circle": ["radius", "center"], "Polygon": ["vertices"], "ShapeGroup": ["shapes"],
+    "State": ["point", "shape", "time_step"],                       # + the float fields = the model's stateFields (checked)
+    "SignalState": ["time_step", "horn", "indicator_left", "indicator_right", "braking_lights", "hazard_warning_lights",
+                    "flashing_blue_lights"],
+    "IntegerExactOrInterval": ["exact", "interval"], "FloatExactOrInterval": ["exact", "interval"],
+    "IntegerInterval": ["start", "end"], "FloatInterval": ["start", "end"],
+    "TrajectoryPrediction": ["trajectory", "shape"], "Trajectory": ["initial_time_step", "states"],
+    "SetBasedPrediction": ["initial_time_step", "occupancy_set"], "OccupancySet": ["occupancies"], "Occupancy": ["time_step", "shape"],
+    "PlanningProblem": ["planning_problem_id", "initial_state", "goal_states"], "GoalState": ["state", "goal_position_lanelets"],
+}
+
+
+def tag_variant(ctx, v, io):
+    for k_ in ("np", "setters", "inplace", "reid", "update_ops", "extras", "shuffle"):
+        if v.get(k_):
+            ctx.tag(f"variant:{k_}")
+    if v.get("entry"):
+        ctx.tag(f"variant:entry-{v['entry']}")
+    if v.get("sign_refs") == "add":
+        ctx.tag("variant:sign-refs-by-add")
+    if v.get("pps") == "add":
+        ctx.tag("variant:pps-by-add")
+    for k_ in ("xml_first", "prefill", "validity"):
+        if io.get(k_):
+            ctx.tag(f"io:{k_}")
+    if io.get("precision") is not None:
+        ctx.tag("io:precision")
+    if io.get("writer") == "direct":
+        ctx.tag("io:writer-direct")
+
+
+def gen_case(rng, i):
+    sp = G.gen_spec(rng, size="small" if i % 3 == 0 else "normal")
+    case = {"spec": sp}
+    if i % 5 != 0:                                   # every fifth case: the plain route
+        sp["variant"] = G.gen_variant(rng)
+        case["io"] = gen_io(rng)
+    if i % 4 == 1:
+        case["history"] = gen_history(rng)
+    return case
+
+
 def run(ctx):
     check_tables(ctx)
+    check_dimensions(ctx)
     for p in sorted(glob.glob(os.path.join(CORPUS_DIR, "C02", "*.json"))):
         run_case(ctx, json.load(open(p)))
     n = ctx.n(700)
     for i in range(n):
-        case = {"spec": G.gen_spec(ctx.rng, size="small" if i % 3 == 0 else "normal")}
-        if i % 4 == 1:
-            case["history"] = gen_history(ctx.rng)
-        run_case(ctx, case)
+        run_case(ctx, gen_case(ctx.rng, i))
     for _ in range(ctx.n(60)):
         c = gen_invalid(ctx.rng)
         if c is not None:
@@ -644,10 +1095,7 @@ def search(ctx):
     for p in sorted(glob.glob(os.path.join(CORPUS_DIR, "C02", "*.json"))):
         run_case(ctx, json.load(open(p)), correspond=False)
     for i in range(ctx.n(150)):
-        case = {"spec": G.gen_spec(ctx.rng)}
-        if i % 3 == 1:
-            case["history"] = gen_history(ctx.rng)
-        run_case(ctx, case, correspond=False)
+        run_case(ctx, gen_case(ctx.rng, i), correspond=False)
 
 
 def replay(ctx, case):
@@ -679,10 +1127,10 @@ class _Probe:
         self.failures.append(key)
 
 
-def _still_fails(sp, key, history=None):
+def _still_fails(case, sp, key):
     p = _Probe()
     try:
-        run_case(p, {"spec": sp, "history": history}, correspond=False)
+        run_case(p, dict(case, spec=sp), correspond=False)
     except Exception:  # noqa
         return False
     finally:
@@ -692,12 +1140,12 @@ def _still_fails(sp, key, history=None):
 
 
 def shrink(case, key):
-    """Greedy: drop whole elements, then trajectory states / goal states / signal series, while `key` still fails."""
-    if case.get("kind") == "invalid" or "spec" not in case:
+    """Greedy: drop whole elements, then signal states, then the construction / io variants, while `key` still fails."""
+    if case.get("kind") in ("invalid", "outside") or "spec" not in case:
         return case
-    sp = copy.deepcopy(case["spec"])
-    hist = case.get("history")
-    if not _still_fails(sp, key, hist):
+    case = copy.deepcopy(case)
+    sp = case["spec"]
+    if not _still_fails(case, sp, key):
         return case
     lists = ["lanelets", "signs", "lights", "intersections", "static", "dynamic", "env", "phantom", "pps"]
     changed = True
@@ -710,7 +1158,7 @@ def shrink(case, key):
             while i < len(sp[k]):
                 cand = copy.deepcopy(sp)
                 del cand[k][i]
-                if _still_fails(cand, key, hist):
+                if _still_fails(case, cand, key):
                     sp = cand
                     changed = True
                 else:
@@ -718,13 +1166,24 @@ def shrink(case, key):
     for simple in (("location", None), ("sid", None), ("tags", []), ("via", "scenario")):
         cand = copy.deepcopy(sp)
         cand[simple[0]] = simple[1]
-        if _still_fails(cand, key, hist):
+        if _still_fails(case, cand, key):
             sp = cand
     for o in sp["static"] + sp["dynamic"]:
         for f in ("sig0", "series"):
             if o.get(f) is not None:
                 save = o[f]
                 o[f] = None
-                if not _still_fails(sp, key, hist):
+                if not _still_fails(case, sp, key):
                     o[f] = save
-    return {"spec": sp, "history": hist} if hist else {"spec": sp}
+    for vk in list((sp.get("variant") or {}).keys()):
+        cand = copy.deepcopy(sp)
+        del cand["variant"][vk]
+        if _still_fails(case, cand, key):
+            sp = cand
+    case["spec"] = sp
+    for ik in list((case.get("io") or {}).keys()):
+        cand = copy.deepcopy(case)
+        del cand["io"][ik]
+        if _still_fails(cand, sp, key):
+            case = cand
+    return case
